@@ -166,24 +166,42 @@ theorem bindL_lookup : ∀ (ds : List X.Decl) (n : String) (b : LBind), (bindL d
 
 def StmtSpec (G : GCtx) (fuel : Nat) : Prop :=
   ∀ pi ∈ G.procs, ∀ sp dep hi, G.lo ≤ sp → sp + G.S pi + pi.po + pi.p.formals.length ≤ G.spv + 1 → G.spv ≤ sp + dep * G.smax →
-    ∀ s σ, okS4 G.pnames s = true →
+    ∀ s σ, okS5 G.pk G.pnames G.xc.impure s = true →
       ExecS (KOf G pi sp dep hi) (G.iEpi pi) (optStmt (annotS (fun _ => none) s)) σ (X.exec fuel G.xc s σ)
 
 /-- What an activation's memory says about the global state. -/
 theorem Rep.toG {G : GCtx} (ok : G.OK) {pi : PInfo} (hpi : pi ∈ G.procs) {sp dep : Nat} {hi : Nat → Word}
     {σ : X.St} {mem : Mem} (h : Rep (KOf G pi sp dep hi) σ mem) : GRep G σ mem := by
-  refine ⟨?_, h.consts⟩
-  intro n w hn hg
-  have hl : σ.locals.lookup n = none := h.gvis n (List.mem_append_left _ hn)
-  have hv : G.xc.genv.lookup n = some .var := (ok.genv_vars n).mp hn
-  have hr : X.readName (KOf G pi sp dep hi).xc σ n = .ok (.int w) := by
-    show X.readName G.xc σ n = .ok (.int w)
-    unfold X.readName
-    rw [hl, hv, hg]
-  obtain ⟨a, hloc, _, hm⟩ := h.vars n w rfl hr
-  have : G.locOf pi sp n = some a := hloc
-  rw [ok.gloc_ok pi hpi sp n hn] at this
-  exact ⟨a, this, hm⟩
+  refine ⟨?_, ?_, h.acells, h.consts⟩
+  · intro n w hv hg
+    have hn := ok.genv_vars n hv
+    have hl : σ.locals.lookup n = none := h.gvis n (List.mem_append_left _ hn)
+    have hr : X.readName (KOf G pi sp dep hi).xc σ n = .ok (.int w) := by
+      show X.readName G.xc σ n = .ok (.int w)
+      unfold X.readName
+      rw [hl, hv, hg]
+    obtain ⟨a, hloc, _, hm⟩ := h.vars n w rfl hr
+    have : G.locOf pi sp n = some a := hloc
+    rw [ok.gloc_ok pi hpi sp n hn] at this
+    exact ⟨a, this, hm⟩
+  · intro n id hgv
+    have hn := ok.genv_arrs n id hgv
+    have hl : σ.locals.lookup n = none := h.gvis n (List.mem_append_left _ hn)
+    have hr : X.readName (KOf G pi sp dep hi).xc σ n = .ok (.arr (.glob id)) := by
+      show X.readName G.xc σ n = _
+      unfold X.readName
+      rw [hl, hgv]
+    obtain ⟨id', a, hid, hloc, _, hm⟩ := h.aptr n _ hr
+    simp only [ArrRef.glob.injEq] at hid
+    subst hid
+    have : G.locOf pi sp n = some a := hloc
+    rw [ok.gloc_ok pi hpi sp n hn] at this
+    exact ⟨a, this, hm⟩
+
+theorem GCtx.OK.not_inArr {G : GCtx} (ok : G.OK) (x : Nat) (h : x ≤ G.spv + 2) : ¬ G.inArr x := by
+  intro ⟨id, h1, h2⟩
+  have := (ok.arr_hi id (by omega)).1
+  omega
 
 /-- The state of the reference semantics at the start of a callee's body. -/
 def calleeSt (st : X.St) (pi : PInfo) (ws : List Word) : X.St :=
@@ -200,20 +218,18 @@ theorem rep_callee {G : GCtx} (ok : G.OK) {pi : PInfo} (hpi : pi ∈ G.procs) (w
     (hlen : pi.p.formals.length = ws.length)
     (hS : G.S pi ≤ spc) (hP1 : memP.read 1 = BitVec.ofNat 32 (spc - G.S pi))
     (hrest : ∀ w, w ≠ 1 → w ≠ spc → memP.read w = mem.read w) (hlo : G.lo ≤ spc - G.S pi)
-    (hmw : spc + pi.po + ws.length ≤ memWords) :
+    (hmw : spc + pi.po + ws.length ≤ memWords) (hspv : spc ≤ G.spv) :
     Rep (KOf G pi (spc - G.S pi) (st.depth + 1) memP.read) (calleeSt st pi ws) memP := by
   have hlo2 := ok.lo_ge
   have hnames : (bindF pi.p.formals ws ++ bindL pi.p.locals).map (·.1) = pi.lnames := by
     simp only [List.map_append, bindF_names _ _ hlen, PInfo.lnames, bindL, List.map_map]
     rfl
-  have hglob : ∀ n, G.xc.genv.lookup n = some .var → (bindF pi.p.formals ws ++ bindL pi.p.locals).lookup n = none := by
+  have hglob : ∀ n, G.xc.genv.lookup n ≠ none → (bindF pi.p.formals ws ++ bindL pi.p.locals).lookup n = none := by
     intro n hv
     apply lookup_none_of_not_mem
     rw [hnames]
     intro hm
-    have := ok.noshadow pi hpi n hm
-    rw [this] at hv
-    simp at hv
+    exact hv (ok.noshadow pi hpi n hm)
   exact {
     sp := hP1
     vals := fun n w h => by simp [KOf] at h
@@ -263,7 +279,7 @@ theorem rep_callee {G : GCtx} (ok : G.OK) {pi : PInfo} (hpi : pi ∈ G.procs) (w
           | proc q => simp at hr
           | var =>
             simp only at hr
-            have hn : n ∈ G.gnames := (ok.genv_vars n).mpr hgv
+            have hn : n ∈ G.gnames := ok.genv_vars n hgv
             cases hgl : (calleeSt st pi ws).gvars.lookup n with
             | none => rw [hgl] at hr; simp at hr
             | some o =>
@@ -273,7 +289,7 @@ theorem rep_callee {G : GCtx} (ok : G.OK) {pi : PInfo} (hpi : pi ∈ G.procs) (w
               | some w' =>
                 simp only [Except.ok.injEq, Val.int.injEq] at hr
                 subst hr
-                obtain ⟨a, ha, hm⟩ := hg.gvars n w' hn hgl
+                obtain ⟨a, ha, hm⟩ := hg.gvars n w' hgv hgl
                 have h2 := ok.gloc_ge n hn a ha
                 have hlt := ok.gloc_lo n hn a ha
                 have htop := ok.top
@@ -311,7 +327,7 @@ theorem rep_callee {G : GCtx} (ok : G.OK) {pi : PInfo} (hpi : pi ∈ G.procs) (w
           show _ < (spc - G.S pi) + G.S pi
           omega
       · have hgv' : G.xc.genv.lookup n = some .var := hgv
-        have hn : n ∈ G.gnames := (ok.genv_vars n).mpr hgv'
+        have hn : n ∈ G.gnames := ok.genv_vars n hgv'
         obtain ⟨a, ha⟩ := ok.gloc_some n hn
         have hlt := ok.gloc_lo n hn a ha
         refine ⟨a, ?_, ?_⟩
@@ -319,11 +335,12 @@ theorem rep_callee {G : GCtx} (ok : G.OK) {pi : PInfo} (hpi : pi ∈ G.procs) (w
           rw [ok.gloc_ok pi hpi _ n hn]; exact ha
         · show a < (spc - G.S pi) + G.S pi
           omega
-    above := fun a _ => rfl
+    above := fun a _ _ => rfl
     gvis := by
       intro n hn
       rcases List.mem_append.mp hn with hn | hn
-      · exact hglob n ((ok.genv_vars n).mp hn)
+      · apply hglob n
+        rcases ok.gnames_genv n hn with h | ⟨id, h⟩ <;> rw [h] <;> simp
       · apply lookup_none_of_not_mem
         show n ∉ (bindF pi.p.formals ws ++ bindL pi.p.locals).map (·.1)
         rw [hnames]
@@ -332,17 +349,98 @@ theorem rep_callee {G : GCtx} (ok : G.OK) {pi : PInfo} (hpi : pi ∈ G.procs) (w
         obtain ⟨p, hp⟩ := ok.pnames_mem n hn
         rw [h1] at hp
         simp at hp
-    depth := rfl }
+    depth := rfl
+    aptr := by
+      intro n r hr
+      change X.readName G.xc (calleeSt st pi ws) n = .ok (.arr r) at hr
+      unfold X.readName at hr
+      cases hl : (calleeSt st pi ws).locals.lookup n with
+      | some b =>
+        exfalso
+        rw [hl] at hr
+        have hl' : (bindF pi.p.formals ws ++ bindL pi.p.locals).lookup n = some b := hl
+        rw [List.lookup_append] at hl'
+        cases hf : (bindF pi.p.formals ws).lookup n with
+        | some b' =>
+          rw [hf] at hl'
+          simp only [Option.some_or, Option.some.injEq] at hl'
+          subst hl'
+          obtain ⟨k, f, hk, hfk, hfn, hb⟩ := bindF_lookup _ _ _ _ hlen hf
+          subst hb
+          simp at hr
+        | none =>
+          rw [hf] at hl'
+          simp only [Option.none_or] at hl'
+          obtain ⟨hb, _⟩ := bindL_lookup _ _ _ hl'
+          subst hb
+          simp at hr
+      | none =>
+        rw [hl] at hr
+        simp only at hr
+        cases hgv : G.xc.genv.lookup n with
+        | none => rw [hgv] at hr; simp at hr
+        | some g =>
+          rw [hgv] at hr
+          cases g with
+          | val w' => exact absurd hgv (ok.no_vals n w')
+          | proc q => simp at hr
+          | var =>
+            exfalso
+            simp only at hr
+            cases hgl : (calleeSt st pi ws).gvars.lookup n with
+            | none => rw [hgl] at hr; simp at hr
+            | some o => rw [hgl] at hr; cases o <;> simp at hr
+          | array id =>
+            simp only [Except.ok.injEq, Val.arr.injEq] at hr
+            have hn := ok.genv_arrs n id hgv
+            obtain ⟨a, ha, hm⟩ := hg.aptr n id hgv
+            have h2 := ok.gloc_ge n hn a ha
+            have hlt := ok.gloc_lo n hn a ha
+            have htop := ok.top
+            refine ⟨id, a, hr.symm, ?_, by unfold memWords at *; omega, ?_⟩
+            · show G.locOf pi (spc - G.S pi) n = _
+              rw [ok.gloc_ok pi hpi _ n hn]; exact ha
+            · rw [hrest _ (by omega) (by omega)]; exact hm
+    acells := by
+      intro id cells hc
+      have hc' : st.arrays[id]? = some cells := hc
+      obtain ⟨hsz, hv⟩ := hg.acells id cells hc'
+      refine ⟨hsz, fun idx w hi => ?_⟩
+      have hlt : idx < cells.size := by
+        by_cases hlt : idx < cells.size
+        · exact hlt
+        · rw [Array.getElem?_eq_none (by omega)] at hi; simp at hi
+      have := (ok.arr_hi id (by omega)).1
+      show memP.read (G.abase id + idx) = w
+      rw [hrest _ (by omega) (by omega)]
+      exact hv idx w hi }
 
 /-! ### The callee -/
 
 theorem GRep.frame {G : GCtx} (ok : G.OK) {σ σ' : X.St} {mem mem' : Mem} (h : GRep G σ mem) (hg : σ'.gvars = σ.gvars)
-    (hm : ∀ a, 2 ≤ a → a < G.lo → mem'.read a = mem.read a) : GRep G σ' mem' := by
-  refine ⟨?_, ?_⟩
-  · intro n w hn hl
+    (hga : σ'.arrays = σ.arrays)
+    (hm : ∀ a, 2 ≤ a → a < G.lo → mem'.read a = mem.read a)
+    (hma : ∀ a, G.inArr a → mem'.read a = mem.read a) : GRep G σ' mem' := by
+  refine ⟨?_, ?_, ?_, ?_⟩
+  · intro n w hv hl
     rw [hg] at hl
-    obtain ⟨a, ha, hv⟩ := h.gvars n w hn hl
+    have hn := ok.genv_vars n hv
+    obtain ⟨a, ha, hv⟩ := h.gvars n w hv hl
     exact ⟨a, ha, by rw [hm a (ok.gloc_ge n hn a ha) (ok.gloc_lo n hn a ha)]; exact hv⟩
+  · intro n id hgv
+    have hn := ok.genv_arrs n id hgv
+    obtain ⟨a, ha, hv⟩ := h.aptr n id hgv
+    exact ⟨a, ha, by rw [hm a (ok.gloc_ge n hn a ha) (ok.gloc_lo n hn a ha)]; exact hv⟩
+  · intro id cells hc
+    rw [hga] at hc
+    obtain ⟨hsz, hv⟩ := h.acells id cells hc
+    refine ⟨hsz, fun idx w hi => ?_⟩
+    have hlt : idx < cells.size := by
+      by_cases hlt : idx < cells.size
+      · exact hlt
+      · rw [Array.getElem?_eq_none (by omega)] at hi; simp at hi
+    rw [hma _ ⟨id, Nat.le_add_right _ _, by omega⟩]
+    exact hv idx w hi
   · intro v l j k hmem hd
     rw [hm _ (ok.const_ge v l j k hmem hd) (ok.const_lo v l j k hmem hd)]
     exact h.consts v l j k hmem hd
@@ -376,7 +474,7 @@ theorem callee_correct {G : GCtx} (ok : G.OK) (fuel : Nat) (ih : StmtSpec G fuel
   -- the prologue
   obtain ⟨a1, memP, stP, hP1, hPl, hPrest⟩ := exec_prologue G.env pi.kind pi.p.name (G.S pi) pi.iPro (ok.at_pro pi hpi)
     lnk b mem spc st.io hm1 (by unfold memWords at *; omega) (ok.code_lo _ hlo) (by omega) ok.code_1 hS
-  have rep := rep_callee ok hpi ws st mem memP spc hg hargs hlen hS hP1 hPrest hlo' (by unfold memWords at *; omega)
+  have rep := rep_callee ok hpi ws st mem memP spc hg hargs hlen hS hP1 hPrest hlo' (by unfold memWords at *; omega) hspc
   have wf := ok.wfs pi hpi (spc - G.S pi) (st.depth + 1) memP.read hlo' (by omega)
   have hbody := ih pi hpi (spc - G.S pi) (st.depth + 1) memP.read hlo' (by omega) (by omega) pi.p.body
     (calleeSt st pi ws) (ok.body_ok pi hpi) pi.gs1 pi.code pi.gs2 (G.iBody pi) a1 (BitVec.ofNat 32 spc) memP
@@ -410,7 +508,7 @@ theorem callee_correct {G : GCtx} (ok : G.OK) (fuel : Nat) (ih : StmtSpec G fuel
         have hat := ok.at_epi pi hpi
         rw [hepi] at hat
         have hl2 : mem2.read (spc - G.S pi + G.S pi) = lnk := by
-          have := rep2.above (spc - G.S pi + G.S pi) (Nat.le_refl _)
+          have := rep2.above (spc - G.S pi + G.S pi) (Nat.le_refl _) (wf.toWF.not_inArr _ (Nat.le_refl _))
           rw [this]
           show memP.read (spc - G.S pi + G.S pi) = lnk
           rw [hsp']; exact hPl
@@ -418,16 +516,17 @@ theorem callee_correct {G : GCtx} (ok : G.OK) (fuel : Nat) (ih : StmtSpec G fuel
           (spc - G.S pi) s.io rep2.sp (by omega) (by unfold memWords at *; omega) ok.code_1 k kind n hk
           (by rw [hl2]; exact hlink)
         rw [hsp'] at h31
-        have hkeep : ∀ x, spc < x → mem3.read x = mem.read x := by
-          intro x hx
+        have hkeep : ∀ x, spc < x → ¬ G.inArr x → mem3.read x = mem.read x := by
+          intro x hx hna
           rw [h3rest x (by omega)]
-          have := rep2.above x (by show spc - G.S pi + G.S pi ≤ x; omega)
+          have := rep2.above x (by show spc - G.S pi + G.S pi ≤ x; omega) hna
           rw [this]
           show memP.read x = mem.read x
           exact hPrest x (by omega) (by omega)
-        refine ⟨a3, b3, mem3, (stP.trans hs2).trans hs3, ?_, h31, fun x hx _ => hkeep x hx, fun w hw => by simp at hw,
-          fun _ => hkeep _ (by omega)⟩
-        exact GRep.frame ok (Rep.toG ok hpi rep2) rfl (fun a ha _ => h3rest a (by omega))
+        refine ⟨a3, b3, mem3, (stP.trans hs2).trans hs3, ?_, h31, fun x hx _ hna => hkeep x hx hna, fun w hw => by simp at hw,
+          fun _ => hkeep _ (by omega) (ok.not_inArr _ (by omega))⟩
+        exact GRep.frame ok (Rep.toG ok hpi rep2) rfl rfl (fun a ha _ => h3rest a (by omega))
+          (fun a ⟨id, h1, h2⟩ => h3rest a (by have := (ok.arr_hi id (by omega)).1; omega))
     | true =>
       cases fl with
       | normal => trivial
@@ -438,7 +537,7 @@ theorem callee_correct {G : GCtx} (ok : G.OK) (fuel : Nat) (ih : StmtSpec G fuel
         have hat := ok.at_epi pi hpi
         rw [hepi] at hat
         have hl2 : mem2.read (spc - G.S pi + G.S pi) = lnk := by
-          have := rep2.above (spc - G.S pi + G.S pi) (Nat.le_refl _)
+          have := rep2.above (spc - G.S pi + G.S pi) (Nat.le_refl _) (wf.toWF.not_inArr _ (Nat.le_refl _))
           rw [this]
           show memP.read (spc - G.S pi + G.S pi) = lnk
           rw [hsp']; exact hPl
@@ -449,10 +548,11 @@ theorem callee_correct {G : GCtx} (ok : G.OK) (fuel : Nat) (ih : StmtSpec G fuel
         rw [hsp'] at h31 h3w h3rest
         refine ⟨a3, b3, mem3, (stP.trans hs2).trans hs3, ?_, h31, ?_, fun w' hw' => by simp at hw'; rw [← hw']; exact h3w,
           fun h => by simp at h⟩
-        · exact GRep.frame ok (Rep.toG ok hpi rep2) rfl (fun a ha hal => h3rest a (by omega) (by omega))
-        · intro x hx hx1
+        · exact GRep.frame ok (Rep.toG ok hpi rep2) rfl rfl (fun a ha hal => h3rest a (by omega) (by omega))
+            (fun a ⟨id, h1, h2⟩ => by have := (ok.arr_hi id (by omega)).1; exact h3rest a (by omega) (by omega))
+        · intro x hx hx1 hna
           rw [h3rest x (by omega) hx1]
-          have := rep2.above x (by show spc - G.S pi + G.S pi ≤ x; omega)
+          have := rep2.above x (by show spc - G.S pi + G.S pi ≤ x; omega) hna
           rw [this]
           show memP.read x = mem.read x
           exact hPrest x (by omega) (by omega)
